@@ -72,8 +72,10 @@ def sweep(ctx, pool, configs):
 
 
 def run(ctx):
-    ctx.lean_stage([], ["Verif.Props.C09", "Verif.Props.TokenRules"])
+    ctx.lean_stage([], ["Verif.Props.C09", "Verif.Props.TokenRules", "Verif.Props.TokenRules2", "Verif.Props.ListRules"])
     import blocks
+    blocks.tokenrules2(ctx)    # H1 / idempotence for MD030 MD046 MD044, proved counter-examples for MD037 MD023; 14-fixer interference table; md029+md030 same-token conflict
+    blocks.listrules(ctx)      # md007_fix_keeps_li_trigger, md007_fix_not_idempotent, md006_fix_not_converged: proved counter-examples to H1 for the list-indentation fixers
     blocks.tokenrules(ctx)     # H1 (fix removes its own trigger), idempotence, H2 table and the joint level-1 pass for nine token fixers
     stats_c, samples = F.fix_correspondence(ctx, 40 if ctx.quick() else 600, F.FIX_CORPUS)
     fm = E.fix_meta()
